@@ -330,6 +330,9 @@ func mapReduceWithPanicChan[T, U, V any](source <-chan T, panicChan *onceChan, m
 			panic(p)
 		} else if ok {
 			val = v
+		} else if options.ctx.Err() != nil {
+			// the context is done, the reducer's output (if any) was dropped by the guarded writer
+			err = context.DeadlineExceeded
 		} else {
 			err = ErrReduceNoOutput
 		}
